@@ -266,12 +266,18 @@ def evaluate(case) -> Result:
         w.close()
 
 
-def install_points():
+def install_points(which="stop"):
     from dv import sched, simkernel as sk
     mods = sk.load_node()
     N = mods["node"].Node
-    # preemption at the lines of the reconnect pass and of stop(); _connect_to_peer itself is entered atomically
-    return sched.install({N._reconnect_peers: None, N.stop: None})
+    sched.clear()
+    if which == "start":
+        # start() against the I/O loop it has just started: the loop's walk over its socket table, and the table insertions
+        return sched.install({N.start: r"_connect_to_peer|for peer",
+                              N._add_peer_connection: r"peer_sockets\[|socket_peers\[|self\.connections\[",
+                              N._handle_connections: r"peer_sockets\.items|self\.connections\.get|_list\.append"})
+    # preemption at the lines of the reconnect pass, of stop() and of the registration of the new connection
+    return sched.install({N._reconnect_peers: None, N.stop: None, N._add_peer_connection: None})
 
 
 def stop_race(decisions, force):
@@ -287,9 +293,18 @@ def stop_race(decisions, force):
         w.answer_cer(c, 2001, auth=(4,), host="peer1.example")
         w.peer_close(c)                      # loss at +0: a redial is due from +1 on
         while_stopping = []
+        # stop() and a reconnect pass that is already under way are concurrent: what the statement excludes is a dial
+        # by a pass that began when the node was already stopping
+        pass_began_stopping = [False]
+        real_pass = w.node._reconnect_peers
+
+        def reconnect_pass():
+            pass_began_stopping[0] = w.node._stopping
+            return real_pass()
+        w.node._reconnect_peers = reconnect_pass
 
         def policy(sock, addr):
-            if w.node._stopping:
+            if w.node._stopping and pass_began_stopping[0]:
                 while_stopping.append((w.k.now, addr))
             return "ok"
         w.net.dial_policy = policy
@@ -314,9 +329,59 @@ def stop_race(decisions, force):
         w.close()
 
 
+def start_race(decisions, npeers=2):
+    """Node.start() starts the connection thread and then dials the persistent peers from the caller's thread.
+    One schedule; every persistent peer must have been dialled and sent its CER, and no thread may have died."""
+    from dv import sched
+    w = W.NodeWorld({"peers": [{"name": f"peer{i + 1}.example", "ip": [f"10.1.1.{i + 1}"], "persistent": True, "reconnect_wait": 1000}
+                               for i in range(npeers)],
+                     "apps": [{"app_id": 4, "auth": True, "peers": list(range(npeers)), "handler": "answer"}],
+                     "node_timers": {"idle": 1000, "dwa": 10, "cer": 30, "cea": 30, "wakeup": 1}, "default_dial": "ok"})
+    try:
+        ex = sched.Explorer(decisions)
+        sched.attach(w.k, ex)
+        ex.armed = True
+        w.start(on_thread=True)
+        ex.armed = False
+        w.advance(1)
+        problems = []
+        if w.start_box["exc"] is not None:
+            problems.append((f"start-raised/{type(w.start_box['exc']).__name__}", repr(w.start_box["exc"])))
+        for sig, d in W.monitor_threads(w):
+            problems.append((f"thread-died/{sig}", d))
+        dialled = {a[0] for _, a, _ in w.net.connect_calls}
+        if dialled != {f"10.1.1.{i + 1}" for i in range(npeers)}:
+            problems.append(("not-dialled", f"persistent peers dialled at start: {sorted(dialled)}"))
+        for c in w.conns:
+            if not [f for f in c.refresh() if f.code == W.CMD_CE and f.is_request]:
+                problems.append(("no-cer", f"connection {c.idx} was dialled but no CER was sent within 1 s"))
+        return ex.trace, problems
+    finally:
+        w.close()
+
+
 def schedule_part(rec, shard, nshards, thorough):
     from dv import sched
     from dv.common import fp
+    info = install_points("start")
+    if shard == 0:
+        rec.extra["preemption_functions_start"] = info
+    for npeers in (2, 3):
+        holder_s = {}
+
+        def run_start(dec, npeers=npeers):
+            tr, problems = start_race(dec, npeers)
+            holder_s["last"] = problems
+            return tr
+        ns = 0
+        for dec, trace in sched.enumerate_schedules(run_start, (5 if thorough else 4) - npeers, shard, nshards):
+            case = {"start_race": npeers, "schedule": {str(i): c for i, c in sorted(dec.items())}}
+            for kind, detail in holder_s["last"]:
+                rec.violation(f"C12/start-race/{kind}", case, detail)
+            ns += 1
+            rec.case(fp("start", npeers, tuple(sorted(dec.items()))) if dec else None,
+                     ["start-race-schedule", f"deviations:{len(dec)}"], sample=lambda: dict(case, choice_points=len(trace)))
+        rec.extra["start_race_schedules"] = rec.extra.get("start_race_schedules", 0) + ns
     info = install_points()
     if shard == 0:
         rec.extra["preemption_functions"] = info
@@ -470,13 +535,23 @@ def run(tier, scale=1.0):
     rec = Recorder(PID)
     for d in hyp.pool_run(shard_main, (tier, scale)):
         rec.merge(d)
-    required = {"other-peer-busy": 1, "second-connection-by-the-peer": 1, "identity:respelled": 1, "stop-race-schedule": 1, "persistent:True": 1, "persistent:False": 1, "always:True": 1, "addr:False": 1, "losses:2": 1,
+    required = {"start-race-schedule": 1, "other-peer-busy": 1, "second-connection-by-the-peer": 1, "identity:respelled": 1, "stop-race-schedule": 1, "persistent:True": 1, "persistent:False": 1, "always:True": 1, "addr:False": 1, "losses:2": 1,
                 "dpr-on-ready": 1, "dwa-event": 1, "dwr-outstanding-at-dpr": 1, "reason-dpr": 1, "dials:3": 1, "loss:sync-refused": 1, "loss:cea-timeout": 1}
     return finish(rec, tier=tier, level="exploration", rule=RULE, assumptions=ASSUME, t0=t0,
                   required_classes=required)
 
 
 def replay(doc):
+    if doc["case"].get("start_race"):
+        install_points("start")
+        _, problems = start_race({int(i): c for i, c in doc["case"]["schedule"].items()}, doc["case"]["start_race"])
+        sigs = [f"C12/start-race/{k}" for k, _ in problems]
+        if doc["signature"] in sigs:
+            print(f"  replayed: {problems[0][1][:300]}")
+            print(f"VIOLATION property={PID} replay=(replay)")
+            return 1
+        print(f"[{PID}] replay: signature {doc['signature']} does not reproduce (got {sigs})")
+        return 0
     if doc["case"].get("stop_race"):
         install_points()
         dec = {int(i): c for i, c in doc["case"]["schedule"].items()}
